@@ -327,6 +327,47 @@ def check_target_and_anyof(h: Harness):
                     f"{r.desc}: counter at the checks = {r.counts}, best fitness at the checks = {r.comps}", replay)
 
 
+def check_injected_population(h: Harness):
+    """GP whose first generation is injected (InjectInitialPopulationWrapper, as SimpleGP(initial_population=...) does), with
+    fewer, exactly as many and MORE programs than the population holds: between two budget checks at most one population
+    is evaluated, so the search makes n <= total < n + population_size evaluations and counts every one"""
+    import pargrammar
+    import synth
+    from geneticengine.representations.tree.operators import GrowInitializer, InjectInitialPopulationWrapper
+    from geneticengine.representations.tree.treebased import TreeBasedRepresentation
+    g = pargrammar.grammar()
+    rng = h.rng
+    for trial in range(h.n(10, 80)):
+        pop = rng.randint(2, 8)
+        m = rng.choice([0, pop - 1, pop, pop + 1, pop + 5, 3 * pop])
+        n = rng.choice([1, 2, pop, pop + 3, 2 * pop + 1])
+        r = NativeRandomSource(rng.randrange(10**6))
+        rep = TreeBasedRepresentation(g, synth.make_decider("grow", 4, r, g))
+        programs = [rep.create_genotype(r) for _ in range(m)]
+        calls = {"n": 0}
+
+        def ff(p, calls=calls):
+            calls["n"] += 1
+            return float(len(repr(p)) % 11)
+        problem = SingleObjectiveProblem(ff)
+        tracker = SingleObjectiveProgressTracker(problem, SequentialEvaluator())
+        gp = GeneticProgramming(problem, AnyOf(EvaluationBudget(n), CheckCapBudget(6 * n + 60)), rep, r, tracker, population_size=pop,
+                                population_initializer=InjectInitialPopulationWrapper(programs, GrowInitializer()))
+        desc = f"GeneticProgramming(population_size={pop}, EvaluationBudget({n}), {m} injected programs)"
+        try:
+            gp.search()
+        except Exception as e:  # noqa: BLE001
+            h.fail("GeneticProgramming.search[injected population]", "raises", f"{desc}: raised {type(e).__name__}: {e}", [pop, m, n])
+            continue
+        total, counted = calls["n"], tracker.get_number_evaluations()
+        h.count("injected-population:" + ("more-than-population" if m > pop else "at-most-population"))
+        h.seen(f"inject:{trial}:{pop}:{m}:{n}", nontrivial=True)
+        if not (n <= total < n + pop) or counted != total:
+            h.fail("GeneticProgramming.search[injected population]", "stops-late-or-early",
+                   f"{desc}: the fitness function was invoked {total} times (expected {n} <= total < {n + pop}), the tracker reports {counted} evaluations",
+                   [pop, m, n])
+
+
 def check_simplegp(h: Harness):
     """the geml wrapper builds its budget from `target_fitness`, `max_time`, `max_evaluations`: the search it runs must
     stop at the first check at which the target is hit (any target value, zero included) or the evaluation budget is
@@ -385,4 +426,5 @@ def run(h: Harness):
     check_evaluation_budgets(h)
     check_target_and_anyof(h)
     check_parallel_evaluator(h)
+    check_injected_population(h)
     check_simplegp(h)
